@@ -38,6 +38,7 @@ theorem whileLoop_rel {step step' : State N → Res N (Option (Ctl N))}
     generalize step' σ' = r'
     intro hr
     cases r <;> cases r' <;> simp only [RRel] at hr
+    any_goals (first | exact RRel.timeout_right hr _ | exact RRel.timeout_left hr _ | exact True.intro)
     · obtain ⟨β1, hle, ha, hs⟩ := hr
       rename_i a _ a' _
       have ihn := fun {s s' : State N} (hs : SRel Q cx β1 s s') =>
@@ -49,9 +50,6 @@ theorem whileLoop_rel {step step' : State N → Res N (Option (Ctl N))}
           (first | exact ihn hs | exact RRel.mono hle (RRel.ok (A := AOVs) trivial hs) | exact RRel.mono hle (RRel.ok (A := AOVs) ha hs))
     · obtain ⟨β1, hle, hv, hs⟩ := hr
       exact RRel.mono hle (RRel.err hv hs)
-    · exact RRel.timeout_left hr _
-    · exact RRel.timeout_left hr _
-    · trivial
 
 theorem forLoop_rel {body body' : N.F → State N → Res N (Ctl N)}
     (hbody : ∀ β', β.le β' → ∀ i s s', SRel Q cx β' s s' → RRel Q cx β' CtlShape (body i s) (body' i s'))
@@ -73,6 +71,7 @@ theorem forLoop_rel {body body' : N.F → State N → Res N (Ctl N)}
       generalize body' i σ' = r'
       intro hr
       cases r <;> cases r' <;> simp only [RRel] at hr
+      any_goals (first | exact RRel.timeout_right hr _ | exact RRel.timeout_left hr _ | exact True.intro)
       · obtain ⟨β1, hle, ha, hs⟩ := hr
         rename_i c _ c' _
         have ihn := fun (j : N.F) {s s' : State N} (hs : SRel Q cx β1 s s') =>
@@ -81,9 +80,6 @@ theorem forLoop_rel {body body' : N.F → State N → Res N (Ctl N)}
           (first | exact ihn _ hs | exact RRel.mono hle (RRel.ok (A := AOVs) trivial hs) | exact RRel.mono hle (RRel.ok (A := AOVs) ha hs))
       · obtain ⟨β1, hle, hv, hs⟩ := hr
         exact RRel.mono hle (RRel.err hv hs)
-      · exact RRel.timeout_left hr _
-      · exact RRel.timeout_left hr _
-      · trivial
 
 theorem gforLoop_rel {iter iter' : Val N → State N → Res N (List (Val N))}
     {body body' : List (Val N) → State N → Res N (Ctl N)}
@@ -102,6 +98,7 @@ theorem gforLoop_rel {iter iter' : Val N → State N → Res N (List (Val N))}
     generalize iter' ctl' σ' = r'
     intro hr
     cases r <;> cases r' <;> simp only [RRel] at hr
+    any_goals (first | exact RRel.timeout_right hr _ | exact RRel.timeout_left hr _ | exact True.intro)
     · obtain ⟨β1, hle, ha, hs⟩ := hr
       rename_i rs s1 rs' s1'
       simp only []
@@ -127,6 +124,7 @@ theorem gforLoop_rel {iter iter' : Val N → State N → Res N (List (Val N))}
         generalize body' rs' s1' = r'
         intro hb
         cases r <;> cases r' <;> simp only [RRel] at hb
+        any_goals (first | exact RRel.mono hle (RRel.timeout_right hb _) | exact RRel.mono hle (RRel.timeout_left hb _) | exact True.intro)
         · obtain ⟨β2, hle2, ha2, hs2⟩ := hb
           have hle' := Inj.le_trans hle hle2
           rename_i c1 _ c1' _
@@ -137,9 +135,6 @@ theorem gforLoop_rel {iter iter' : Val N → State N → Res N (List (Val N))}
             (first | exact ihn hs2 | exact RRel.mono hle' (RRel.ok (A := AOVs) trivial hs2) | exact RRel.mono hle' (RRel.ok (A := AOVs) ha2 hs2))
         · obtain ⟨β2, hle2, hv2, hs2⟩ := hb
           exact RRel.mono (Inj.le_trans hle hle2) (RRel.err hv2 hs2)
-        · exact RRel.mono hle (RRel.timeout_left hb _)
-        · exact RRel.mono hle (RRel.timeout_left hb _)
-        · trivial
       revert hcont
       vcases hfirst : first rs , first rs'
       all_goals intro hcont
@@ -148,8 +143,5 @@ theorem gforLoop_rel {iter iter' : Val N → State N → Res N (List (Val N))}
       all_goals exact hcont (by vr)
     · obtain ⟨β1, hle, hv, hs⟩ := hr
       exact RRel.mono hle (RRel.err hv hs)
-    · exact RRel.timeout_left hr _
-    · exact RRel.timeout_left hr _
-    · trivial
 
 end DarkluaModel.Sem.HeapU
